@@ -9,6 +9,7 @@
   finished <now> <exp> <bs> <cut|->
   server <bs> <cut|->
   prune t|f|s <max> <cut|->
+  pass <now> <texp> <tbs> <fexp> <fbs> <thist> <fhist>   one complete pass of the service loop (Archive.runPass)
   dl t|s <object>                  download_batch of every snapshot of the history directory
 
   Phase lines answer `st=<ok|cut|ValueError|diverges> w=<writes> ` followed by the state dump.
@@ -120,6 +121,15 @@ def stepLine (d : DSt) (ws : List String) : DSt × String :=
     match parseHist h, max.toInt?, parseCut cut with
     | some h, some max, some cut => phase d ⟨0, 0⟩ (.prune h max) cut
     | _, _, _ => (d, "bad-op")
+  | ["pass", now, texp, tbs, fexp, fbs, thist, fhist] =>
+    -- one complete pass of the service loop with these options (`Archive.runPass`)
+    match parseDec (str now), [texp, tbs, fexp, fbs, thist, fhist].mapM String.toInt? with
+    | some now, some [texp, tbs, fexp, fbs, thist, fhist] =>
+      let o : PassOpts := { traceBatch := tbs, traceExpire := texp, traceHist := thist,
+                            finBatch := fbs, finExpire := fexp, finHist := fhist }
+      let s' := runPass d.cur now o none
+      ({ d with cur := s' }, s!"pass {dump s'}")
+    | _, _ => (d, "bad-op")
   | ["dl", h, obj] =>
     match parseHist h with
     | some h => (d, dlAll d.cur h (str obj))
